@@ -2,7 +2,8 @@
    Gen/XyzElements.v, Gen/Units.v (tie T) and Gen/ScaleExpr.v (tie S) are regenerated from /repo on every run,
    so the table obligations below are re-decided against the current code. *)
 From Coq Require Import List Bool ZArith NArith QArith String Reals Qreals.
-From Molli Require Import Common.ParseStr Model.Parse Model.XyzText Model.XyzEdit Proofs.Parse Proofs.XyzText Proofs.XyzEdit.
+From Molli Require Import Common.ParseStr Model.Parse Model.XyzText Model.XyzEdit Model.XyzSize Proofs.Parse Proofs.XyzText Proofs.XyzEdit
+                          Proofs.XyzSize.
 From Molli Require Import Gen.XyzElements Gen.Units Gen.ScaleExpr.
 Import ListNotations.
 Local Open Scope list_scope.
@@ -144,3 +145,50 @@ Proof. exact units_law_refuted_by_multiplying. Qed.
    symbol and therefore read back as a regular atom of that element (the element itself is preserved) *)
 Theorem C08_known_dummy_marker_never_written : forallb (fun p => negb (str_eqb (snd p) star)) syms = true.
 Proof. vm_compute. reflexivity. Qed.
+
+(* SIZE.  Nothing in the writer or the reader depends on how many atoms or frames there are: for every list of
+   geometries the writer accepts, the text has the frame structure the oracle reads (`text_frames`: count line,
+   comment line, exactly that many records, until the text ends) -- one frame per geometry, in order, header count =
+   number of records = number of atoms, comment = name, and no line outside the frames ... *)
+Theorem C08_text_frames : forall gs ls, write_xyz syms gs = Some ls ->
+  exists frs, text_frames (List.length ls) ls = Some frs /\
+              Forall2 (fun fr g => fst (fst fr) = N.of_nat (List.length (wg_atoms g)) /\
+                                   List.length (snd fr) = List.length (wg_atoms g) /\ snd (fst fr) = wg_name g) frs gs /\
+              forallb frame_counts_ok frs = true /\
+              ls = List.concat (map (fun fr => print_N (fst (fst fr)) :: snd (fst fr) :: snd fr) frs).
+Proof. exact (written_text_counts syms). Qed.
+Print Assumptions C08_text_frames.
+(* ... every record line is exactly four tokens: the symbol of the atom's element and its three coordinates ... *)
+Theorem C08_record_tokens : forall g rs, geom_records syms g = Some rs ->
+  Forall2 (fun l a => exists sym, symbol_of syms (wa_elem a) = Some sym /\
+                      split l = [sym; print_dec6 (fst (wa_x a)) (snd (wa_x a)); print_dec6 (fst (wa_y a)) (snd (wa_y a));
+                                 print_dec6 (fst (wa_z a)) (snd (wa_z a))])
+          rs (wg_atoms g).
+Proof. intros g rs. apply (written_record_tokens names syms). exact C08_vocabulary. Qed.
+Print Assumptions C08_record_tokens.
+(* ... and the size family of the harness (the pattern of Model/XyzSize.v, which harness/c08.py expands identically)
+   lies in the writer's domain at EVERY atom count n, seed and number of frames: written, read back as exactly those
+   geometries, one frame of header count n and n records per geometry.  (The runs sample n and k at and around powers
+   of two, decimal powers and multiples of them; the statement is for all of N.) *)
+Theorem C08_size_elements : pat_elems_writable syms = true.
+Proof. vm_compute. reflexivity. Qed.
+Theorem C08_size_family : forall name fs,
+  exists ls, write_xyz syms (pat_geoms name fs) = Some ls /\
+             load_xyz names ls = Ok (map geom_mol (pat_geoms name fs)) /\
+             exists frs, text_frames (List.length ls) ls = Some frs /\
+                         map (fun fr => fst (fst fr)) frs = map (fun f => fst (fst f)) fs /\
+                         forallb frame_counts_ok frs = true.
+Proof. intros name fs. exact (size_family names syms name fs C08_vocabulary C08_size_elements). Qed.
+Print Assumptions C08_size_family.
+Example C08_size_nonvacuous :
+  match write_xyz syms (pat_geoms (s2l "s") (pat_ens 256 3 [1; 2]%N)) with
+  | Some ls => (List.length ls =? 516)%nat && str_eqb (nth 0 ls []) (s2l "256") && str_eqb (nth 258 ls []) (s2l "256") &&
+               negb (list_eqb str_eqb (firstn 258 ls) (skipn 258 ls))
+  | None => false
+  end = true.
+Proof. vm_compute. reflexivity. Qed.
+(* a frame whose records are followed by surplus records under the same header (a block written twice) has no reading:
+   the surplus record stands where the next count line must be *)
+Theorem C08_surplus_records_refuted : forall fuel cm rs r rest, parse_int r = None ->
+  text_frames (S fuel) (print_N (N.of_nat (List.length rs)) :: cm :: rs ++ r :: rest) = None.
+Proof. exact text_frames_surplus. Qed.
